@@ -757,7 +757,10 @@ class Ctx:
         ent = self.prog.allocs.get(alloc)
         if ent is None:
             raise Unmodelled('alloc ' + alloc)
-        size, body = ent
+        size, body, static_name = ent
+        if static_name:
+            # a `static` item: an opaque named object (models decide what dereferencing it yields)
+            return Ref(Cell(('static', static_name)))
         # hex dump lines: "    0x00 │ 68 65 6c 6c 6f │ hello"
         data = bytearray()
         for line in body.split('\n'):
